@@ -10,7 +10,7 @@ rows = ["| seed | reported by (check-rule) | now | as built / what changed |", "
 counts: dict = {}
 for e in idx:
     sid, status, detail = e["seed"], e["status"], e["detail"]
-    rnd = "b5" if sid.startswith("b5_") else "b4" if sid.startswith("b4_") else ("b3" if sid.startswith("b3_") else ("b1" if int(sid[1:3]) <= 8 else "b2"))
+    rnd = "b6" if sid.startswith("b6_") else "b5" if sid.startswith("b5_") else "b4" if sid.startswith("b4_") else ("b3" if sid.startswith("b3_") else ("b1" if int(sid[1:3]) <= 8 else "b2"))
     c = counts.setdefault(rnd, {"kept": 0, "as built": 0, "after strengthening": 0, "refused now": 0, "missed now": 0, "dropped": 0})
     if status in ("dropped", "unconfirmed"):
         c["dropped"] += 1
